@@ -24,6 +24,60 @@ func tarTree(root string) ([]byte, error) {
 	return buf.Bytes(), err
 }
 
+// gnuTarOf builds a PAX tar of a snapshot with archive/tar (depth-first order, no xattrs); ok is false when archive/tar
+// itself cannot carry the names unchanged, i.e. the input would not describe the tree.
+func gnuTarOf(want map[string]*treeEntry) ([]byte, bool) {
+	var tb bytes.Buffer
+	tw := gnutar.NewWriter(&tb)
+	var paths []string
+	for p := range want {
+		paths = append(paths, p)
+	}
+	sortStrings(paths)
+	for _, p := range paths {
+		e := want[p]
+		h := &gnutar.Header{Name: p, Mode: int64(e.Mode), Uid: int(e.UID), Gid: int(e.GID), ModTime: timeFromNs(e.MtimeNs), Format: gnutar.FormatPAX}
+		switch e.Type {
+		case "dir":
+			h.Typeflag = gnutar.TypeDir
+		case "file":
+			h.Typeflag, h.Size = gnutar.TypeReg, int64(len(e.Content))
+		case "symlink":
+			h.Typeflag, h.Linkname = gnutar.TypeSymlink, e.Target
+		case "char", "block":
+			h.Typeflag = gnutar.TypeChar
+			if e.Type == "block" {
+				h.Typeflag = gnutar.TypeBlock
+			}
+			h.Devmajor = int64((e.Rdev >> 8) & 0xfff)
+			h.Devminor = int64((e.Rdev & 0xff) | ((e.Rdev >> 12) & 0xfff00))
+		}
+		if err := tw.WriteHeader(h); err != nil {
+			return nil, false
+		}
+		if e.Type == "file" {
+			tw.Write(e.Content)
+		}
+	}
+	tw.Close()
+	chk := gnutar.NewReader(bytes.NewReader(tb.Bytes()))
+	i := 0
+	for {
+		h, err := chk.Next()
+		if err != nil {
+			break
+		}
+		if i >= len(paths) || filepath.Clean(h.Name) != paths[i] {
+			return nil, false
+		}
+		i++
+	}
+	if i != len(paths) {
+		return nil, false
+	}
+	return tb.Bytes(), true
+}
+
 func runC05(c *fw.Case) {
 	if desyncBin() != "" && c.Chance(1, 60, "c05.proc") {
 		runC05Proc(c)
@@ -214,63 +268,38 @@ func runC05(c *fw.Case) {
 		return
 	case 3:
 		// build a GNU/PAX tar of the tree with archive/tar, feed it through TarReader -> Tar -> UnTar
-		var tb bytes.Buffer
-		tw := gnutar.NewWriter(&tb)
-		var paths []string
-		for p := range want {
-			paths = append(paths, p)
+		tarBytes, ok := gnuTarOf(want)
+		if !ok {
+			c.Outcome("tar-input-not-representable")
+			return
 		}
-		sortStrings(paths)
-		for _, p := range paths {
-			e := want[p]
-			h := &gnutar.Header{Name: p, Mode: int64(e.Mode), Uid: int(e.UID), Gid: int(e.GID), ModTime: timeFromNs(e.MtimeNs), Format: gnutar.FormatPAX}
-			switch e.Type {
-			case "dir":
-				h.Typeflag = gnutar.TypeDir
-			case "file":
-				h.Typeflag, h.Size = gnutar.TypeReg, int64(len(e.Content))
-			case "symlink":
-				h.Typeflag, h.Linkname = gnutar.TypeSymlink, e.Target
-			case "char", "block":
-				h.Typeflag = gnutar.TypeChar
-				if e.Type == "block" {
-					h.Typeflag = gnutar.TypeBlock
-				}
-				h.Devmajor = int64((e.Rdev >> 8) & 0xfff)
-				h.Devminor = int64((e.Rdev & 0xff) | ((e.Rdev >> 12) & 0xfff00))
+		// fault: the tar stream ends inside a member; Tar has to report it (unless archive/tar itself takes the
+		// cut stream for a complete archive)
+		if c.Chance(1, 4, "c05.tarcut") {
+			off := c.Draw(len(tarBytes), "c05.tarcut.at")
+			if off%512 == 0 {
+				off++
 			}
-			if err := tw.WriteHeader(h); err != nil {
-				c.Outcome("tar-input-not-representable")
-				return
-			}
-			if e.Type == "file" {
-				tw.Write(e.Content)
-			}
-		}
-		tw.Close()
-		// archive/tar itself must carry the names unchanged, otherwise the input does not describe the tree
-		{
-			chk := gnutar.NewReader(bytes.NewReader(tb.Bytes()))
-			i := 0
-			for {
-				h, err := chk.Next()
-				if err != nil {
-					break
-				}
-				if i >= len(paths) || filepath.Clean(h.Name) != paths[i] {
-					c.Outcome("tar-input-not-representable")
+			if off < len(tarBytes) && tarReadFails(tarBytes[:off]) {
+				c.Fault("tar-input-truncated")
+				var sink bytes.Buffer
+				if catch(c, "Tar", func() {
+					err = desync.Tar(context.Background(), &sink, desync.NewTarReader(bytes.NewReader(tarBytes[:off]), desync.TarReaderOptions{}))
+				}) {
 					return
 				}
-				i++
-			}
-			if i != len(paths) {
-				c.Outcome("tar-input-not-representable")
+				if err == nil {
+					c.Violate("truncated-input-accepted", site, "tar stream of %d bytes cut at %d: archive/tar reports the cut, Tar returned nil", len(tarBytes), off)
+					return
+				}
+				c.Outcome("truncated-input-rejected")
 				return
 			}
 		}
+		tb := bytes.NewBuffer(tarBytes)
 		var cat bytes.Buffer
 		if catch(c, "Tar", func() {
-			err = desync.Tar(context.Background(), &cat, desync.NewTarReader(&tb, desync.TarReaderOptions{}))
+			err = desync.Tar(context.Background(), &cat, desync.NewTarReader(tb, desync.TarReaderOptions{}))
 		}) {
 			return
 		}
